@@ -31,6 +31,7 @@ type Registry struct {
 	Opts  map[string]HarnessOpts    `json:"opts"`  // harness -> options
 	Tier  map[string]map[string]HarnessOpts `json:"tier_opts"` // tier -> harness -> options
 	Skip  map[string][]string       `json:"quick_skip"` // property -> harnesses only run in thorough
+	NativeSelf map[string][]string  `json:"native_selfcheck"` // property -> extra wiring harnesses whose native face is run on every check (trusted-base self-checks)
 	BorrowQ map[string][]string     `json:"borrowed_quick"` // property -> harnesses of another property that keep the quick bounds in this property's thorough tier
 	Wiring map[string][]string      `json:"wiring"` // property -> harnesses of package w (loads the application package)
 	Bounds map[string]string        `json:"bounds"` // harness -> human description of bounds
@@ -504,6 +505,53 @@ func cmdRun(args []string) int {
 			}
 		}
 	}
+	// Native self-check: the native faces of this property's wiring harnesses (reflection on the
+	// real application, probes through the real CheckTx / gateway / command tree / RunMigrations,
+	// the bank-model differential) are executed on every run, not only to confirm a static
+	// counterexample. A native face that fails while the symbolic/static face holds means that the
+	// two views of the code disagree (a stub, a model or a probe is wrong, or the static fact does
+	// not capture the behaviour): inconclusive, never a pass.
+	if status != 1 {
+		var selfNames []string
+		for _, n := range names {
+			if isWiringHarness(n) {
+				selfNames = append(selfNames, n)
+			}
+		}
+		var nativeRan []string
+		for _, n := range selfNames {
+			v := &Violation{Harness: n, Prop: prop, Tier: tier, Label: "native-selfcheck", Kind: "selfcheck", Inputs: map[string]string{}, Choices: []int{}}
+			if err := rpw.build(); err != nil {
+				bump(2)
+				problems = append(problems, n+": native self-check could not be built: "+err.Error())
+				break
+			}
+			dir := filepath.Join(verifDir, "build")
+			b, _ := json.Marshal(v)
+			f := filepath.Join(dir, "selfcheck_"+n+".json")
+			os.WriteFile(f, b, 0o644)
+			cmd := exec.Command("timeout", "300", rpw.bin, f)
+			cmd.Dir = dir
+			out, _ := cmd.CombinedOutput()
+			os.Remove(f)
+			ok := false
+			for _, line := range strings.Split(string(out), "\n") {
+				if strings.HasPrefix(line, "REPLAY-OK") || strings.HasPrefix(line, "REPLAY-ASSUME-FAILED") {
+					ok = true
+				}
+			}
+			if !ok {
+				bump(2)
+				problems = append(problems, fmt.Sprintf("%s: NATIVE SELF-CHECK failed while the symbolic face holds: %s", n, shorten(strings.ReplaceAll(string(out), "\n", " | "), 500)))
+			} else {
+				nativeRan = append(nativeRan, n)
+			}
+		}
+		if len(nativeRan) > 0 {
+			fmt.Printf("native self-check ok: %s\n", strings.Join(nativeRan, " "))
+		}
+		nativeSelfRan = nativeRan
+	}
 	for _, pr := range problems {
 		fmt.Println("PROBLEM:", pr)
 	}
@@ -519,6 +567,9 @@ func cmdRun(args []string) int {
 	}
 	return status
 }
+
+// native faces of wiring harnesses executed (and passed) by the native self-check of this run
+var nativeSelfRan []string
 
 func writeEvidence(prop, tier string, seed int, runs []*HarnessRun, knownSeen map[string]bool, wall float64, problems []string, reg Registry) {
 	type hsum struct {
@@ -621,6 +672,14 @@ func writeEvidence(prop, tier string, seed int, runs []*HarnessRun, knownSeen ma
 		"assumptions": assumptions,
 		"coverage": map[string]interface{}{
 			"explanation": "Bounded symbolic verification: the repo's functions are loaded from /repo's working tree as go/ssa, executed symbolically by the symgo engine (inputs, pre-state fields, block time and parameters are SMT variables; structure such as list lengths and actor identities is enumerated by forking), and every harness assertion / implicit panic site on every feasible path is an SMT query (path condition ∧ ¬assertion) decided by z3 5.1 / cvc5 1.0 / z3 4.8. unsat = holds for all values within the stated bounds; sat = model, replayed against the natively compiled code before being reported.",
+			"native_selfcheck": nativeSelfRan,
+			"trusted_base": []string{
+				"symgo engine: go/ssa executor and its intrinsics for math.Int / LegacyDec / Coins / time / bech32 / codec (concrete differential against the native SDK: H_C10_SelfTestIntrinsics; repository test vectors: H_C1x_SelfTestVectors)",
+				"zz_verif/model/bank.go ledger model of x/bank + x/auth (differential against the real keepers: H_C04_WiringBankModel, run natively in the self-check of C04/C05)",
+				"zz_verif/model/store.go ordered-map model of the KV store (differential against the real store: H_C20_WiringStoreModel)",
+				"SMT solvers z3 5.1.0 (z3-new), cvc5 1.0, z3 4.8.12; unsat verdicts are trusted, sat verdicts are replayed natively",
+				"Go 1.23 toolchain and cosmos-sdk v0.47.13 for the native replay",
+			},
 			"obligations":          obl,
 			"discharged":           dis,
 			"discharged_syntactic": synt,
